@@ -5,6 +5,7 @@ import (
 	"bytes"
 	"crypto/sha256"
 	"encoding/binary"
+	"encoding/csv"
 	"encoding/json"
 	"fmt"
 	"io"
@@ -609,6 +610,7 @@ type c09Runner struct {
 	eprog  [2]*parser.Program
 	print  *parser.Program
 	ofmt   string
+	omode  string // OUTPUTMODE for the print program ("" / csv / tsv)
 }
 
 func c09Ladder(call func(args string) string) string {
@@ -650,6 +652,7 @@ func newC09Runner() *c09Runner {
 		"c09str":   func(i int) string { return r.items[i].arg.Str },
 		"c09out":   func(i int, s string) { r.outs[i] = s; r.called[i] = true },
 		"c09ofmt":  func() string { return r.ofmt },
+		"c09omode": func() string { return r.omode },
 	}
 	head := `BEGIN { FS = "\001"; n = c09n(); for (i = 0; i < n; i++) { f = c09fmt(i); k = c09kind(i); s = c09nstar(i); `
 	r.sprog = awk.MustParse(head+c09Ladder(func(a string) string { return "r = sprintf(" + a + ")" })+"; c09out(i, r) } }", r.funcs)
@@ -657,7 +660,7 @@ func newC09Runner() *c09Runner {
 	// error programs: item 0's format with its stars list used as plain arguments (0..3 of them)
 	r.eprog[0] = awk.MustParse(`BEGIN { f = c09fmt(0); s = c09nstar(0); if (s == 0) r = sprintf(f); else if (s == 1) r = sprintf(f, c09star(0,0)); else if (s == 2) r = sprintf(f, c09star(0,0), c09star(0,1)); else r = sprintf(f, c09star(0,0), c09star(0,1), c09star(0,2)); c09out(0, r) }`, r.funcs)
 	r.eprog[1] = awk.MustParse(`BEGIN { f = c09fmt(0); s = c09nstar(0); if (s == 0) printf f; else if (s == 1) printf f, c09star(0,0); else if (s == 2) printf f, c09star(0,0), c09star(0,1); else printf f, c09star(0,0), c09star(0,1), c09star(0,2); c09out(0, "done") }`, r.funcs)
-	r.print = awk.MustParse(`BEGIN { OFMT = c09ofmt(); n = c09n(); for (i = 0; i < n; i++) print c09num(i) }`, r.funcs)
+	r.print = awk.MustParse(`BEGIN { OFMT = c09ofmt(); OUTPUTMODE = c09omode(); n = c09n(); for (i = 0; i < n; i++) print c09num(i) }`, r.funcs)
 	return r
 }
 
@@ -740,6 +743,7 @@ type c09Case struct {
 	Via   string   `json:"via,omitempty"`
 	Spec2 *c09Spec `json:"spec2,omitempty"`
 	OFMT  string   `json:"ofmt,omitempty"`
+	OMode string   `json:"output_mode,omitempty"`
 	Src   string   `json:"src,omitempty"`
 }
 
@@ -1143,6 +1147,14 @@ func c09PrintNums() []float64 {
 var c09OFMTs = []string{"%.6g", "%.3g", "%.2f", "%e", "%g", "%.10g", "%8.3f", "%+.4e", "%.0f", "%#.3g", "%G", "%-9.2f|"}
 
 func c09CheckPrint(c *core.Ctx, e *c09Env, r *c09Runner, ofmt string) {
+	for _, omode := range []string{"", "csv", "tsv"} {
+		c09CheckPrintMode(c, e, r, ofmt, omode)
+	}
+}
+
+// c09CheckPrintMode: print of numbers under OFMT in one output mode (in csv
+// mode a formatted number with a leading blank is written quoted).
+func c09CheckPrintMode(c *core.Ctx, e *c09Env, r *c09Runner, ofmt, omode string) {
 	nums := c09PrintNums()
 	var items []c09Item
 	var reqs []int
@@ -1160,12 +1172,12 @@ func c09CheckPrint(c *core.Ctx, e *c09Env, r *c09Runner, ofmt string) {
 		}
 	}
 	cres := e.h.run()
-	r.ofmt = ofmt
+	r.ofmt, r.omode = ofmt, omode
 	res := r.exec(r.print, items, false)
 	c.Eval(int64(len(nums)))
 	c.Add("transitions", int64(len(nums)))
 	c.Add("states", 1)
-	cs := c09Case{Kind: "print", OFMT: ofmt}
+	cs := c09Case{Kind: "print", OFMT: ofmt, OMode: omode}
 	if res.ErrString() != "" {
 		c.Fail("print-error", cs, firstLine(res.ErrString()))
 		return
@@ -1182,8 +1194,21 @@ func c09CheckPrint(c *core.Ctx, e *c09Env, r *c09Runner, ofmt string) {
 			continue
 		}
 		want := string(cres[reqs[i]])
+		if omode != "" {
+			var b bytes.Buffer
+			w := csv.NewWriter(&b)
+			if omode == "tsv" {
+				w.Comma = '\t' // goawk's TSV output is the CSV writer with a tab separator (see C08)
+			}
+			w.Write([]string{want})
+			w.Flush()
+			want = strings.TrimSuffix(b.String(), "\n")
+		}
 		if lines[i] != want {
 			sig := "print-nonintegral-not-ofmt"
+			if omode != "" {
+				sig += "_outputmode=" + omode
+			}
 			if v == math.Trunc(v) {
 				sig = "print-integral-not-integer"
 			} else if ofmt == "%g" || ofmt == "%G" {
@@ -1198,7 +1223,7 @@ func c09CheckPrint(c *core.Ctx, e *c09Env, r *c09Runner, ofmt string) {
 	}
 	sort.Strings(sigs)
 	for _, s := range sigs {
-		c.Fail(s, cs, "OFMT="+ofmt+": "+strings.Join(bySig[s], "; "))
+		c.Fail(s, cs, "OFMT="+ofmt+" OUTPUTMODE="+omode+": "+strings.Join(bySig[s], "; "))
 	}
 }
 
@@ -1315,7 +1340,7 @@ func init() {
 			"x precisions (none, '.', literal, .* positive/negative/0) x a fixed table of 64 argument values (integers across the int64 range, out-of-range, fractional, tiny/huge/non-finite floats, " +
 			"strings numeric/non-numeric/empty/multi-byte/non-UTF-8, numeric input fields, unset), byte mode for all and character mode for c and s; each result of sprintf (and of the printf statement) " +
 			"is compared with C snprintf called with the argument converted the AWK way and the exact C type; plus every pair of conversions in one format (argument routing, %% and literal text), " +
-			"%% formats, too-few-argument and unknown-conversion formats (every byte) which must be run-time errors, and print of 65 numbers under 12 OFMT values. " +
+			"%% formats, too-few-argument and unknown-conversion formats (every byte) which must be run-time errors, and print of 65 numbers under 12 OFMT values in default, csv and tsv output mode. " +
 			"a state is one (format specification, mode); a transition one (specification, argument) evaluation; defined_cases counts those under the equality oracle; distinct = distinct produced strings",
 		Assumptions: []string{
 			"the installed C library's snprintf (glibc, C locale, 64-bit long) is the reference for what C printf produces",
